@@ -41,6 +41,8 @@ var c15Spares = []string{"none", "n-1", "n", "n+1", "big"}
 
 const c15Guard = 32
 
+var c15Tails = []string{"e-0", "1e-0", "e+0", "E-0", ",", ":", "[", "{", "\"", "\\", "\\u00", "null", "0", "-", ".", "0.", "e", "{\"a\":", "[1,", "\xc3", "</"}
+
 func c15Window(prefix int, spareCap int, r *rng) (backing []byte, b []byte) {
 	backing = make([]byte, c15Guard+prefix+spareCap+c15Guard)
 	for i := range backing {
@@ -48,6 +50,15 @@ func c15Window(prefix int, spareCap int, r *rng) (backing []byte, b []byte) {
 	}
 	for i := 0; i < prefix; i++ {
 		backing[c15Guard+i] = byte('a' + r.intn(26))
+	}
+	// b's own bytes are the caller's: half of the time they end like a piece of JSON that an encoder might be
+	// tempted to look back at (an exponent to tidy, a comma to trim, an open string, an escape)
+	if prefix > 0 && r.intn(2) == 0 {
+		tail := c15Tails[r.intn(len(c15Tails))]
+		if len(tail) > prefix {
+			tail = tail[len(tail)-prefix:]
+		}
+		copy(backing[c15Guard+prefix-len(tail):], tail)
 	}
 	b = backing[c15Guard : c15Guard+prefix : c15Guard+prefix+spareCap]
 	return
